@@ -32,6 +32,53 @@ pub struct CopyCase {
     pub dst: String,
     /// 0 copy, 1 chmod_all, 2 chmod_dirs, 3 chmod_files, 4 follow, 5 move_p
     pub variant: u8,
+    /// run on a tmpfs sandbox through Stdfs (the tree is materialised with std::fs from the Memfs-built one)
+    #[serde(default)]
+    pub stdfs: bool,
+}
+
+/// Disk observations carry derived facts the in-memory dump does not have in that form: whether a link's target
+/// currently is a directory, and the target as the kernel resolves it (which can leave the sandbox). Both are
+/// replaced by their lexical counterparts so that the predicates compare stored facts only: the link text.
+fn lexical_links(t: &mut Tree) {
+    let keys: Vec<String> = t.nodes.keys().cloned().collect();
+    for k in keys {
+        if let Some(Node::Link { target, rel, to_dir, .. }) = t.nodes.get_mut(&k) {
+            *to_dir = false;
+            if !rel.is_empty() && !rel.starts_with('/') {
+                *target = ref_clean(&format!("{}/{}", parent(&k), rel));
+            }
+        }
+    }
+}
+
+static SEQ: std::sync::atomic::AtomicU64 = std::sync::atomic::AtomicU64::new(0);
+
+/// Domain of the Stdfs runs: every link leads (through links) to an existing non-link entry, no argument
+/// passes through a link, the root itself is not the source
+pub fn stdfs_domain(pre: &Tree, s: &str, d: &str) -> bool {
+    let resolves = |start: &str| -> bool {
+        let mut t = start.to_string();
+        for _ in 0..8 {
+            match pre.nodes.get(&t) {
+                Some(Node::Link { target, .. }) => t = target.clone(),
+                Some(_) => return t != "/",
+                None => return false,
+            }
+        }
+        false
+    };
+    let through_link = |p: &str| -> bool {
+        let mut cur = parent(p);
+        while cur != "/" && !cur.is_empty() {
+            if pre.kind(&cur) == Some(Kind::Link) {
+                return true;
+            }
+            cur = parent(&cur);
+        }
+        false
+    };
+    s != "/" && pre.nodes.iter().all(|(k, n)| n.kind() != Kind::Link || resolves(k)) && !through_link(s) && !through_link(d)
 }
 
 const CMODE: u32 = 0o711;
@@ -137,7 +184,41 @@ fn under(base: &str, rel: &str) -> String {
 
 pub fn check_copy(case: &CopyCase) -> CaseResult {
     let m = build(&case.tree);
-    let pre = tree_from_dump(&m.verif_dump());
+    let mut pre = tree_from_dump(&m.verif_dump());
+    // Stdfs: the same tree on tmpfs, observed with std::fs before and after
+    let std_root: Option<String> = if case.stdfs {
+        let root = crate::sandbox::root().join(format!("c09-{}", SEQ.fetch_add(1, std::sync::atomic::Ordering::Relaxed)));
+        let root = root.to_str().unwrap().to_string();
+        let mut abs_tree = pre.clone();
+        abs_tree.nodes = pre
+            .nodes
+            .iter()
+            .map(|(k, n)| {
+                let mut n = n.clone();
+                if let Node::Link { target, .. } = &mut n {
+                    *target = if target == "/" { root.clone() } else { format!("{}{}", root, target) };
+                }
+                (if k == "/" { root.clone() } else { format!("{}{}", root, k) }, n)
+            })
+            .collect();
+        if let Err(e) = crate::props::c02::materialise(&abs_tree, &root) {
+            ctx().inconclusive(&format!("C09 cannot materialise a tree on tmpfs: {}", e));
+            let _ = std::fs::remove_dir_all(&root);
+            return Ok(());
+        }
+        // owners as in the Memfs tree where they are not the default
+        for (k, n) in &abs_tree.nodes {
+            let (u, g) = n.owner();
+            if (u, g) != (1000, 1000) && n.kind() != Kind::Link {
+                let _ = std::os::unix::fs::chown(k, Some(u), Some(g));
+            }
+        }
+        pre = crate::props::c20::tree_from_disk(&root);
+        lexical_links(&mut pre);
+        Some(root)
+    } else {
+        None
+    };
     let (s, d) = (case.src.as_str(), case.dst.as_str());
     let skind = pre.kind(s);
     let cls = format!(
@@ -159,16 +240,33 @@ pub fn check_copy(case: &CopyCase) -> CaseResult {
         _ => Op::MoveP(s.into(), d.into()),
     };
     let vname = ["copy", "copy-chmod_all", "copy-chmod_dirs", "copy-chmod_files", "copy-follow", "move_p", "copy-chmod_files-then-chmod_all", "copy-chmod_all-then-chmod_dirs"][case.variant as usize % 8];
-    let out = apply(&m, &op);
+    let (out, post) = match &std_root {
+        Some(root) => {
+            let real: Op = serde_json::from_str(&serde_json::to_string(&op).unwrap().replace("\"/", &format!("\"{}/", root))).unwrap();
+            // "/" itself is the sandbox directory
+            let real: Op = serde_json::from_str(&serde_json::to_string(&real).unwrap().replace(&format!("\"{}/\"", root), &format!("\"{}\"", root))).unwrap();
+            let out = apply(&Vfs::stdfs(), &real);
+            let mut post = crate::props::c20::tree_from_disk(root);
+            lexical_links(&mut post);
+            // make the tree removable whatever modes it ended up with
+            let _ = std::process::Command::new("chmod").args(["-R", "u+rwx", root]).status();
+            let _ = std::fs::remove_dir_all(root);
+            (out, post)
+        },
+        None => {
+            let out = apply(&m, &op);
+            let dump = m.verif_dump();
+            let bad = integrity(&dump);
+            if !bad.is_empty() && !matches!(out, Out::Panic(_)) {
+                return Err(Failure::new(format!("{}|integrity:{}|{}", vname, bad[0].0, cls), format!("{:?} -> {:?}: {}", op, out, bad[0].1)));
+            }
+            (out, tree_from_dump(&dump))
+        },
+    };
+    let cls = if case.stdfs { format!("{}|stdfs", cls) } else { cls };
     if let Out::Panic(msg) = &out {
         return Err(Failure::new(format!("{}|panic|{}|{}", vname, panic_site(msg), cls), format!("{:?} panicked: {}", op, msg)));
     }
-    let dump = m.verif_dump();
-    let bad = integrity(&dump);
-    if !bad.is_empty() {
-        return Err(Failure::new(format!("{}|integrity:{}|{}", vname, bad[0].0, cls), format!("{:?} -> {:?}: {}", op, out, bad[0].1)));
-    }
-    let post = tree_from_dump(&dump);
     let base = if pre.kind(d) == Some(Kind::Dir) { join(d, &base(s)) } else { d.to_string() };
     let base = if s == "/" { d.to_string() } else { base };
     let fail = |what: &str, detail: String| Err(Failure::new(format!("{}|{}|{}", vname, what, cls), format!("{:?} -> {:?}: {}", op, out, detail)));
@@ -348,7 +446,7 @@ pub fn check_copy(case: &CopyCase) -> CaseResult {
 }
 
 pub fn run(c: &Ctx) {
-    c.set_rule("exhaustive: every tree over the namespace {/a,/b} x {a,b} where each top-level slot is missing / file / link (to /a,/b,/a/a,/nope,/b/b) / directory with two children each missing / file / dir / link (3025 trees; every fourth gets non-default modes, owners or both), materialised on a fresh Memfs; x every ordered (src,dst) pair of 12 paths (the namespace, root, missing names, a missing parent, deeper-than-namespace) x {copy, copy+chmod_all, +chmod_dirs, +chmod_files, +follow, move_p, chmod_files-then-chmod_all, chmod_all-then-chmod_dirs (the later option replaces the earlier)}. quick: a seeded 1/3 of the trees, thorough: all (3.5 M cases). Oracle: postcondition predicates on the dump before/after (DESIGN section 4 C09): source untouched, every source entry has a copy at the same relative path with same kind/bytes/link target, new entries carry the source mode unless the chmod option selects their kind, existing entries kept, nothing outside the destination changes (except created ancestors); move: source gone, destination == former subtree (modes, owners, bytes, link text; relative links resolve from the new location), rest unchanged, failed move changes nothing; C03 invariants; call returns. Non-trivial = src exists and (dst exists or src/dst nested or an option is set); distinct by (tree, src, dst, variant).");
+    c.set_rule("exhaustive: every tree over the namespace {/a,/b} x {a,b} where each top-level slot is missing / file / link (to /a,/b,/a/a,/nope,/b/b) / directory with two children each missing / file / dir / link (3025 trees; every fourth gets non-default modes, owners or both), materialised on a fresh Memfs; x every ordered (src,dst) pair of 12 paths (the namespace, root, missing names, a missing parent, deeper-than-namespace) x {copy, copy+chmod_all, +chmod_dirs, +chmod_files, +follow, move_p, chmod_files-then-chmod_all, chmod_all-then-chmod_dirs (the later option replaces the earlier)}. quick: a seeded 1/3 of the trees, thorough: all (3.5 M cases); a seeded 1/40 (quick) / 1/12 (thorough) of the cases whose tree has only resolving links and whose arguments do not pass through a link also runs through Stdfs on a tmpfs copy of the tree (materialised and observed with std::fs), same predicates. Oracle: postcondition predicates on the dump before/after (DESIGN section 4 C09): source untouched, every source entry has a copy at the same relative path with same kind/bytes/link target, new entries carry the source mode unless the chmod option selects their kind, existing entries kept, nothing outside the destination changes (except created ancestors); move: source gone, destination == former subtree (modes, owners, bytes, link text; relative links resolve from the new location), rest unchanged, failed move changes nothing; C03 invariants; call returns. Non-trivial = src exists and (dst exists or src/dst nested or an option is set); distinct by (tree, src, dst, variant).");
     c.assume("copy with follow on a source containing links: only frame conditions are asserted (placement undocumented)");
     let trees = all_trees();
     let paths = arg_paths();
@@ -356,6 +454,7 @@ pub fn run(c: &Ctx) {
     let np = paths.len() as u64;
     c.note("trees_total", trees.len());
     let per_tree = np * np * 8;
+    let std_den = c.tier.pick(40, 12);
     par_for(trees.len() as u64, 2, |ti| {
         if !sampled(c.seed, 900, ti, 1, den) {
             return;
@@ -368,7 +467,21 @@ pub fn run(c: &Ctx) {
             let variant = (j % 8) as u8;
             let s = paths[((j / 8) / np) as usize];
             let d = paths[((j / 8) % np) as usize];
-            let case = CopyCase { tree: tree.clone(), src: s.into(), dst: d.into(), variant };
+            let case = CopyCase { tree: tree.clone(), src: s.into(), dst: d.into(), variant, stdfs: false };
+            // the same case through Stdfs on tmpfs: a seeded sample inside the Stdfs domain
+            // (follow with links inside the source is the undocumented-placement area of DESIGN 6.3; on a real
+            // filesystem the traversal can even descend into what it is writing, so it is left out there)
+            let follow_links = variant == 4 && pre.subtree(s).iter().any(|k| pre.kind(k) == Some(Kind::Link));
+            if sampled(c.seed, 901, ti * per_tree + j, 1, std_den) && stdfs_domain(&pre, s, d) && !follow_links {
+                let sc = CopyCase { stdfs: true, ..case.clone() };
+                mark("copy", &serde_json::to_string(&sc).unwrap());
+                c.eval(1);
+                c.class("stdfs");
+                if pre.nodes.contains_key(s) {
+                    fps.push(fp(&(ti, j, "std")));
+                }
+                c.judge("copy", &sc, check_copy(&sc));
+            }
             if j % 97 == 0 {
                 mark("copy", &serde_json::to_string(&case).unwrap());
             } else {
@@ -392,11 +505,16 @@ pub fn run(c: &Ctx) {
     if den == 1 {
         c.set_exhaustive(true);
     }
+    crate::sandbox::cleanup();
 }
 
 pub fn replay(kind: &str, case: &Value) -> Option<CaseResult> {
     match kind {
-        "copy" => Some(check_copy(&serde_json::from_value(case.clone()).ok()?)),
+        "copy" => {
+            let r = check_copy(&serde_json::from_value(case.clone()).ok()?);
+            crate::sandbox::cleanup();
+            Some(r)
+        },
         _ => None,
     }
 }
